@@ -186,6 +186,8 @@ def make_source(st, spec, led_name):
     fail_at = spec.get("fail_at")
     eof_at = spec.get("eof_at")
     kw = {}
+    if form == "existing":
+        return os.path.join(st.world, "in", spec["name"]), kw
     if form in ("path", "gz"):
         name = spec.get("name", "in_%s_%d.gff" % (led_name, st.serial))
         st.serial += 1
